@@ -78,6 +78,9 @@ Clause(e) ==
     [] e.op = "marginal" ->
          IF e.raised THEN "X03.MarginalRaised"
          ELSE IF e.vals # post THEN "X03.MarginalOfHeldRowsIsTheirLibraryValue" ELSE ""
+    [] e.op = "orbits" ->
+         IF e.raised THEN "X03.OrbitRaised"
+         ELSE IF e.vals # post THEN "X03.OrbitIsTheCurveOfTheRowAsItIs" ELSE ""
     [] OTHER -> "H.UnknownOperation"
 
 Init == tid \in 1..Len(Tr) /\ l = 1 /\ post = <<>> /\ haslp = FALSE /\ pmeta = "none" /\ file = Absent /\ fails = <<>>
